@@ -75,6 +75,8 @@ CASES = [
     ("multiplex: remove_edge leaves the metadata entry", MH, "        if edge_id in self._edge_metadata:\n            del self._edge_metadata[edge_id]\n\n        nodes, layer = edge", "        nodes, layer = edge", 0,
      ["MultiplexHypergraph.remove_edge"], "wf.em_live"),
     # ---- hygiene-only and behaviour-preserving changes: nothing may fail
+    ("bfs: depth counter dropped from the queue records' use (same search)", "hypergraphx/utils/visits.py",
+     "                queue.extend((n, depth + 1) for n in neighbors if n not in visited)", "                queue.extend((n, depth + 2) for n in neighbors if n not in visited)", 0, ["_bfs"], None),
     ("hash pre-image: renamed local", HG, "            edge_id = self._edge_list[edge]\n            edges.append(\n                {\n                    \"nodes\": sorted_edge,\n                    \"weight\": self._weights.get(edge_id, 1),\n                    \"metadata\": self._edge_metadata.get(edge_id, {}),",
      "            eid = self._edge_list[edge]\n            edges.append(\n                {\n                    \"nodes\": sorted_edge,\n                    \"weight\": self._weights[eid],\n                    \"metadata\": self._edge_metadata[eid],", 0,
      ["Hypergraph.expose_attributes_for_hashing"], None),
